@@ -43,6 +43,10 @@ class SysEngine(MempoolEngine):
         self.tips_seen = []
         self.querier = None
         self.uw = None
+        self.clock = 0
+        self.notify_in_flight = 0
+        self.reply_t = {}
+        self.notif_log = []        # (logical time, touched hashXs) of every notification issued
 
     # -- Notifications instrumentation (C20 monitor on real traces + environment-model membership)
     def install(self):
@@ -90,7 +94,13 @@ class SysEngine(MempoolEngine):
             async def notify(h, touched):
                 eng.nmon.on_notify(h, touched)
                 eng.bump('notifications_issued')
-                return await notify_func(h, touched)
+                eng.clock += 1
+                eng.notif_log.append((eng.clock, set(touched)))
+                eng.notify_in_flight += 1
+                try:
+                    return await notify_func(h, touched)
+                finally:
+                    eng.notify_in_flight -= 1
             eng.nmon.on_db_height(dbh())
             eng.nmon.on_start(height)
             r = await orig_start(self_, height, notify)
@@ -114,6 +124,9 @@ class SysEngine(MempoolEngine):
         def cb(tr, msg):
             if not isinstance(msg, dict):
                 return
+            if 'id' in msg and 'method' not in msg:
+                self.clock += 1
+                self.reply_t[(ci, msg['id'])] = self.clock
             if msg.get('method') == 'blockchain.headers.subscribe':
                 self.bump('header_notifications_seen')
                 p = msg['params'][0]
@@ -136,8 +149,9 @@ class SysEngine(MempoolEngine):
     async def send(self, ci, method, params, info):
         cl = self.clients[ci]
         id_ = await cl.send(method, params)
+        self.clock += 1
         info = dict(info, method=method, params=params, sent_at=len(cl.tr.out), version=self.world.version,
-                    tips_index=len(self.tips_seen))
+                    tips_index=len(self.tips_seen), t_sent=self.clock)
         self.req[(ci, id_)] = info
         return id_
 
@@ -312,9 +326,23 @@ class SysEngine(MempoolEngine):
                         out.append((ci, n, info, m))
         return out
 
+    def read_across_notification(self, hx, sh, kinds=('sub', 'get_history')):
+        '''F11 mechanism: a subscribe / history request for this script whose (parked) read spanned a notification that
+        touched the script: the reply (and the cache entry) were computed from the pre-notification state.'''
+        for (ci, id_), info in self.req.items():
+            if info.get('sh') == sh and info['k'] in kinds:
+                t0, t1 = info['t_sent'], self.reply_t.get((ci, id_), 10 ** 12)
+                if any(t0 < t < t1 and hx in touched for t, touched in self.notif_log):
+                    return True
+        return False
+
     def judge_statuses(self, co, mo):
         '''C07: the last status each client holds for every script hash it is subscribed to.'''
         for ci, cl in enumerate(self.clients):
+            if cl.tr.closed:
+                # the server closed the connection (e.g. notification timeout): the client knows it must reconnect
+                self.bump('clients_disconnected_by_server')
+                continue
             held = {}      # sh -> (position, status) | removed on unsubscribe
             hdr = None
             hsub = False
@@ -366,7 +394,10 @@ class SysEngine(MempoolEngine):
                 if st not in allowed:
                     n_conf = len(co.history(hx))
                     n_mp = len(mo.tx_set(hx))
-                    self.viol('subscriber/stale-status', f'client {ci} holds a status for script {si} that is not the status of the current '
+                    key = 'subscriber/stale-status'
+                    if self.read_across_notification(hx, sh):
+                        key = 'session/stale-read-across-notification'
+                    self.viol(key, f'client {ci} holds a status for script {si} that is not the status of the current '
                               f'chain+mempool ({n_conf} confirmed, {n_mp} unconfirmed txs)', {'client': ci, 'script': si, 'held': st})
                 else:
                     self.bump('held_statuses_correct')
@@ -395,7 +426,8 @@ class SysEngine(MempoolEngine):
                 ok = {(x['tx_hash'], x['height']) for x in tail} == want_mp and len(tail) == len(want_mp) \
                     and all(x.get('fee') == fees[x['tx_hash']] for x in tail if x['tx_hash'] in fees)
             if not ok:
-                self.viol('stale/get_history', f'get_history for script {si} at quiescence differs from the current chain+mempool '
+                self.viol('session/stale-read-across-notification' if self.read_across_notification(hx, sh) else 'stale/get_history',
+                          f'get_history for script {si} at quiescence differs from the current chain+mempool '
                           f'(confirmed part equal: {isinstance(got, list) and got[:len(want_conf)] == want_conf})')
             r = await cl.call('blockchain.scripthash.get_balance', [sh])
             want = {'confirmed': co.balance(hx), 'unconfirmed': mo.balance_delta(hx)}
@@ -458,7 +490,7 @@ class SysEngine(MempoolEngine):
         def pending():
             answered = {(ci, m['id']) for ci, cl in enumerate(self.clients) for m in cl.tr.out
                         if isinstance(m, dict) and 'id' in m and 'method' not in m}
-            return [k for k in self.req if k not in answered]
+            return [k for k in self.req if k not in answered and not self.clients[k[0]].tr.closed]
         while pending():
             if loop.time() > end:
                 return False
@@ -472,6 +504,14 @@ class SysEngine(MempoolEngine):
             return
         self.uw = UndoWindow(w, c.get('reorg_limit', 5))
         self.uw.note_daemon_tip()
+        lp = c.get('longpark')
+        if lp:
+            # long-park policy: a client read job may stay descheduled across whole polls and refreshes
+            def on_submit(job):
+                if job.name.split('.')[-1] in ('read_history', 'read_utxos') and rng.random() < lp:
+                    job.longpark = 'job-end'
+                    self.bump('jobs_long_parked')
+            loop.gex.on_submit = on_submit
         loop.hooks.append(self.db_height_hook)
         self.scripts = [s for s in w.scripts if not unspendable(s, 10 ** 9, w.activation) and s[:1] != b'\x6a'][:c.get('nscripts', 8)]
         self.tips_seen.append(w.tip)
@@ -498,12 +538,21 @@ class SysEngine(MempoolEngine):
                 self.inconclusive.append('no quiescence: index/mempool did not synchronise with a static daemon')
                 return
             break
+        # "notifications delivered": nothing being notified, no worker job outstanding, then time for delivery
+        def idle():
+            return self.notify_in_flight == 0 and not loop.gex.jobs
+        if not await self.srv.wait_until(idle, 1500):
+            self.inconclusive.append('no quiescence: a notification / worker job is still in flight')
+            return
         await asyncio.sleep(16)
         if not await self.settle_clients():
             self.inconclusive.append('client requests still unanswered at quiescence')
             return
         if not await self.wait_synchronised(900):
             self.inconclusive.append('lost synchronisation while settling')
+            return
+        if not await self.srv.wait_until(idle, 1500):
+            self.inconclusive.append('no quiescence: activity did not cease')
             return
         co = ChainOracle(w.active(), w.activation)
         mo = MempoolOracle(co, w.mempool)
